@@ -245,9 +245,7 @@ pub fn make_module() -> KMap {
                 };
 
                 let mut cache = ValueMap::with_capacity(m.len());
-                // Sort a copy of the data, the key function may access the map
-                let mut data = m.data().clone();
-                data.sort_by(|key_a, value_a, key_b, value_b| {
+                m.data_mut().sort_by(|key_a, value_a, key_b, value_b| {
                     if error.is_some() {
                         return Ordering::Equal;
                     }
@@ -285,7 +283,6 @@ pub fn make_module() -> KMap {
                 if let Some(error) = error {
                     error
                 } else {
-                    *m.data_mut() = data;
                     Ok(KValue::Map(m))
                 }
             }
